@@ -9,10 +9,12 @@ TRUSTED = [
     'hand-written model coq/Model/Server.v (callers, ledger, condition with FIFO waiters, gather, notifier, abstract servlet)',
     'trace validation: the real Server.call/_enqueue/_wait_for_result/_gather_output run under harness/detsched.py with virtual Condition/SimpleQueue/Future, a logging ledger dict and a virtual clock injected into mpservice.mpserver._server; every logged run is replayed event by event in the model',
     'servlet stand-in (harness.scen_server.FakeServlet): n worker threads answering requests in any order',
+    __import__('harness.scen_backlog', fromlist=['BACKLOG_TRUSTED']).BACKLOG_TRUSTED,
+    'hand-written specification coq/Model/BacklogSpec.v (counter of requests in flight; refuses the operation that breaks the bound or disagrees with the log)',
 ]
 ASSUME = [
     'request ids are unique while in flight (the run uses a never-reusing id allocator; id reuse is C02\'s subject)',
-    'AsyncServer (same logic on an asyncio.Condition) and process servlets are not scheduled',
+    'AsyncServer (same logic on an asyncio.Condition) and process servlets are not scheduled: they run for real in the real-run part (interleavings are what the OS / event loop produce)',
     'reject-leaves-no-trace and the bound on the waiting time are checked by the oracle on every explored run (theorem _todo)',
 ]
 
@@ -59,7 +61,8 @@ def nontrivial(r):
 def parts():
     return [core.Part('server', 'harness.scen_server', 'server', 400, 8000, 'DriverServer', sv.coq_server_case,
                       oracle, nontrivial, shard=150,
-                      describe=lambda r: {k: r.get(k) for k in ('cfg', 'strategy', 'verdict', 'outcome', 'outcomes', 'backlog_max', 'final_backlog', 'events')})]
+                      describe=lambda r: {k: r.get(k) for k in ('cfg', 'strategy', 'verdict', 'outcome', 'outcomes', 'backlog_max', 'final_backlog', 'events')}),
+            __import__('harness.scen_backlog', fromlist=['part']).part(18, 300)]
 
 
 def check(tier, seed, replay=None):
@@ -78,5 +81,9 @@ def check(tier, seed, replay=None):
              '1-3 servlet workers, failing inputs) x schedule strategies (random, PCT, greedy orders, greedy+flips; in ~45% of the runs '
              'any pending timed wait may expire at any yield point); the real Server runs under the deterministic scheduler, the '
              'backlog is sampled at every yield point, and each run is replayed in the Coq model. non-trivial = >= 2 callers and some '
-             'caller waited on the condition or was rejected; distinct = distinct (configuration, trace)',
+             'caller waited on the condition or was rejected; distinct = distinct (configuration, trace). Real-run part: AsyncServer over '
+             'thread / process servlets and Server over process / thread servlets, capacity 1-3, 2-9 concurrent callers (start offsets, '
+             'request durations 5-40 ms, timeouts 20 ms - 5 s, backpressure on/off, cancellations, failing requests), then idle wait, '
+             'three plain calls and the exit; the exact ledger history is replayed in BacklogSpec; non-trivial = the backlog reached the '
+             'capacity and somebody was rejected',
         replay=replay, post=post)
